@@ -52,6 +52,7 @@ void generate(sim::Rng &r, uint64_t seed, const std::string &tier, sim::Plan &p)
       else if (theme == 4) { static const long ks[] = {S_BWAIT, S_BPOST, S_JOIN, S_CADD, S_CWAIT, S_CPOST, S_YIELD, S_CANCEL, S_CREATE, S_WAIT}; kind = ks[r.below(10)]; }
       else kind = (long)r.below(S_NSTEP);
       if (kind == S_SEND || kind == S_RECV) a = r.chance(800) ? 0 : 1;
+      if (kind == S_SEND && r.chance(120)) a += NCH * r.range(4, 40);       // a burst of 5-41 values in one step: the backlog grows far beyond what alternating sends and receives leave
       else if (kind == S_LOCK || kind == S_UNLOCK) { a = r.chance(800) ? 0 : 1; if (kind == S_UNLOCK && r.chance(300)) a += NMX; }   // + NMX: after unlocking, cancel the first routine waiting for that mutex before it runs
       else if (kind == S_ACQUIRE || kind == S_RELEASE) a = r.chance(800) ? 0 : 1;
       else if (kind == S_JOIN || kind == S_CANCEL || kind == S_CREATE) a = (long)r.below((uint64_t)nr);
@@ -68,6 +69,7 @@ void generate(sim::Rng &r, uint64_t seed, const std::string &tier, sim::Plan &p)
     if (kind == S_WAIT || kind == S_CANCEL || kind == S_CREATE) a = (long)r.below((uint64_t)nr);
     else if (kind == S_CPOST) a = r.range(1, 3);
     else a = r.chance(800) ? 0 : 1;
+    if (kind == S_SEND && r.chance(120)) a += NCH * r.range(4, 40);
     op.a = {r.chance(500) ? 0 : r.range(1, 5), kind, a};
     // 4th: after a waking operation (send / release / broadcast post), cancel the first routine it woke before that routine runs
     if ((kind == S_SEND || kind == S_RELEASE || kind == S_BPOST) && r.chance(300)) op.a.push_back(1);
@@ -128,7 +130,7 @@ void routine_body(int r, Scheduler &sch) {
     switch (kind) {
       case S_YIELD: sch.yield(); ok = !sch.isCanceled(); break;
       case S_WAIT: me.blocked_kind = S_WAIT; sch.wait(); me.blocked_kind = -1; ok = !sch.isCanceled(); break;
-      case S_SEND: { int c = (int)(a % NCH); int v = W.next_val++; W.chq[c].push_back(v); *W.ch[c] << v; break; }
+      case S_SEND: { int c = (int)(a % NCH); for (long j = 0; j <= a / NCH; ++j) { int v = W.next_val++; W.chq[c].push_back(v); *W.ch[c] << v; } if (a >= NCH) sim::probe("send_burst"); break; }
       case S_RECV: {
         int c = (int)(a % NCH); int v = -1;
         me.blocked_kind = S_RECV; me.blocked_obj = c;
@@ -303,7 +305,7 @@ void execute(const sim::Plan &plan) {
           // resume() is the counterpart of wait(): it is only applied to a routine that is suspended in a plain wait()
           case S_WAIT: { int r = (int)(a % NR); if (W.rs[r].created && !W.rs[r].finished && W.rs[r].blocked_kind == S_WAIT) W.sch->resume(W.rs[r].token); break; }
           case S_CANCEL: { int r = (int)(a % NR); if (W.rs[r].created && !W.rs[r].finished) { W.rs[r].cancel_sent = true; W.sch->cancel(W.rs[r].token); } break; }
-          case S_SEND: { int c = (int)(a % NCH); int v = W.next_val++; W.chq[c].push_back(v); *W.ch[c] << v; break; }
+          case S_SEND: { int c = (int)(a % NCH); for (long j = 0; j <= a / NCH; ++j) { int v = W.next_val++; W.chq[c].push_back(v); *W.ch[c] << v; } if (a >= NCH) sim::probe("send_burst"); break; }
           case S_RELEASE: { int s = (int)(a % NSEM); ++W.sem_rel[s]; ++W.sem_count[s]; W.sem[s]->release(); break; }
           case S_BPOST: { for (int w : W.bc_waiting) W.bc_must_return.push_back(w); W.bc_waiting.clear(); ++W.bc_epoch; W.bc->post(); break; }
           case S_CPOST: cond_post_model((int)a); W.cond->post((int)a); break;
